@@ -114,8 +114,22 @@ impl StreamingQueryExecutor {
             .get_chunks_with_predicates(time_range, &predicates)
             .await?;
 
+        // While a shard is in the dual-write or backfill phase of a split, the chunks of its
+        // new shards only hold copies of rows that are still stored in the old shard: the
+        // historical phase reads the originals only, as `QueryNode::query` does.
+        let copy_shards = self
+            .metadata
+            .active_split_new_shards()
+            .await
+            .unwrap_or_default();
+
         let chunk_paths: Vec<String> = chunks
             .iter()
+            .filter(|chunk| {
+                !copy_shards
+                    .iter()
+                    .any(|shard| chunk.chunk_path.contains(shard.as_str()))
+            })
             .map(|chunk| chunk.chunk_path.clone())
             .collect();
 
